@@ -130,6 +130,21 @@ class C04(PipelineCheck):
             return [], {'probes': probes, 'obligations': obl, 'injected': 0}
         blob = pickle.dumps(run.program, protocol=4)
         sample = None
+        brnd = sim.rand.bprng
+
+        def prefer(site, choices):
+            # scheduler bias (P2-style, every outcome legal): half of the time steer the
+            # overwriting towards type arguments of constructor / generic-method calls, which
+            # a uniform choice reaches in under 2 % of the injections
+            if site[0] != 'type_overwriting.py' or brnd.random() < 0.5:
+                return None
+            idx = [i for i, ch in enumerate(choices)
+                   if type(ch).__name__ == 'TypeConstructorInstantiationCallNode' or (
+                       isinstance(ch, tuple) and len(ch) == 3 and isinstance(ch[1], list) and any(
+                           type(x).__name__ == 'TypeConstructorInstantiationCallNode'
+                           for x in ch[1]))]
+            return brnd.choice(idx) if idx else None
+        sim.rand.prefer = prefer
         for k in range(self.K):
             program = pickle.loads(blob)
             o = OverwriteObserver(self, sim, c)
@@ -148,7 +163,10 @@ class C04(PipelineCheck):
             ninj += ex.get('injected', 0)
             if sample is None and ex.get('sample') and ex.get('injected'):
                 sample = ex['sample']
+        sim.rand.prefer = None
         extra = {'probes': probes, 'obligations': obl, 'injected': ninj,
+                 'faults': dict(self.fault_counts(sim, plan),
+                                P2_directed_choice=sim.rand.prefer_fired),
                  'sample': sample or {'config': c, 'note': 'no injection in this run'}}
         return list(v.values()), extra
 
@@ -375,7 +393,11 @@ class C04(PipelineCheck):
                 if ok_before:
                     ok_after, out = self._javac(res['texts_after']['java'], plan['run_seed'], 'a')
                     if ok_after:
-                        add('accepted-by-javac', kind,
+                        oo = _unvar(self._old_type(obs, diff, kind) or ('?',))
+                        nn = tsnap(new_t) if new_t is not None else ('?',)
+                        cls = 'numeric' if numeric(oo) and numeric(nn) else '%s-to-%s' % (
+                            shape(oo, 1), shape(nn, 1))
+                        add('accepted-by-javac', '%s|%s' % (kind, cls),
                             'javac accepts the program although an injection is reported: %s' % (
                                 (res['error_injected'] or '')[:160]))
         return {'injected': 1,
